@@ -23,14 +23,14 @@ import GtirbVerif.Spec.FlatCfg
 
   *No edge starts or ends at a block that left the module*, per operation: after `join_blocks`
   no edge starts or ends at the absorbed block; after `remove_block` has removed a code block no
-  edge ends at it (Lemmas/IRCfgJoin.lean).
+  edge ends at it, and none starts at it when no return edge left it (Lemmas/IRCfgJoin.lean).
 
 Partial: the composition over whole `insert`/`delete` calls and the return-edge bookkeeping are
-decided by the oracle on the real output and by the correspondence, not by a theorem; so is "no
-edge *starts* at a removed block": `_remove_outgoing_edges` hands a block that both calls and
-returns for the callee's function a fresh return edge to a proxy after its own out-edges were
-snapshotted, in the code as in the model, and excluding that needs an invariant on the edge kinds
-of a block.
+decided by the oracle on the real output and by the correspondence, not by a theorem.  The
+hypothesis of `remove_leaves_no_edge_from_the_removed_block` is needed: `_remove_outgoing_edges`
+hands a block that both calls and returns for the callee's function a fresh return edge to a proxy
+after its own out-edges were snapshotted, in the code as in the model (a block ends in one
+terminator, so a CFG consistent with its code has no such block).
 -/
 namespace GtirbVerif.Props.C03
 open GtirbVerif GtirbVerif.IR
@@ -98,5 +98,12 @@ theorem remove_leaves_no_edge_into_the_removed_block {ir ir' : IR} {b : Nat} {px
     (hnext : px = false → (ir.adjacent blk).2.getD 0 ≠ b) :
     ∀ e ∈ ir'.cfg, e.dst ≠ .block b :=
   removeBlock_no_in_edge h hb hcode hnext
+
+/-- **remove: no edge starts at the removed block** (a code block that no return edge leaves) -/
+theorem remove_leaves_no_edge_from_the_removed_block {ir ir' : IR} {b : Nat} {px : Bool} {blk : Block}
+    (h : ir.removeBlock b px = .ok (ir', true)) (hb : ir.block? b = some blk) (hcode : blk.isCode = true)
+    (hnr : ∀ e ∈ ir.cfg, e.src = .block b → Edge.isRet e = false) :
+    ∀ e ∈ ir'.cfg, e.src ≠ .block b :=
+  removeBlock_no_out_edge h hb hcode hnr
 
 end GtirbVerif.Props.C03
